@@ -54,6 +54,14 @@ Inductive cop :=
    verified light block height+1 (None: not available) *)
 | OBlockResults (h : Z) (lb : option light_block) (last_trusted : Z)
                 (next_rh : option (option bytes)) (rs : results)
+(* GetTransactionsWithResults(height) (347-377): verified transactions, the same
+   results check as GetBlockResults (it shares the results-hash cache), then the
+   conversion of the results (abstract: [conv_ok]) *)
+| OTxResults (h : Z) (lb : option light_block) (last_trusted : Z)
+             (next_rh : option (option bytes)) (txs : list bytes) (rs : results) (conv_ok : bool)
+(* a stateless public method (GetBlock, GetTransactions, GetTransactionsWithProofs,
+   GetParameters, GetValidators, SubmitTxWithProof): Bind.core_api *)
+| OApi (lb : option light_block) (c : api_call)
 (* handleNewBlock(blk) (525-544); [lb]: retryLightBlock(blk.Height), None when
    it gives up (context cancelled) *)
 | ONewBlock (lb : option light_block) (b : block)
@@ -96,6 +104,22 @@ Section Core.
     | None => if (provider_latest <? 1)%Z then None else Some provider_latest
     end.
 
+  (* core.go:599-621 + 864-876: the Core method verifyBlockResults with the results-hash cache *)
+  Definition results_step (st : cstate) (l : light_block) (last_trusted : Z)
+             (next_rh : option (option bytes)) (rs : results) : cstate * bverdict :=
+    if (last_trusted <=? lb_height l)%Z then
+      (st, core_verify_block_results H last_trusted rs next_rh l)
+    else
+      match lru_get (lb_height l) (rh_cache st) with
+      | (Some rh, c') => (mkCState (sr_cache st) c' (latest_block st) (watching st), verify_block_results H rs rh l)
+      | (None, _) =>
+          match next_rh with
+          | None => (st, BOther)
+          | Some rh => (mkCState (sr_cache st) (lru_put cache_capacity (lb_height l) rh (rh_cache st)) (latest_block st) (watching st),
+                        verify_block_results H rs rh l)
+          end
+      end.
+
   Definition cstep (st : cstate) (o : cop) : cstate * canswer :=
     match o with
     | OStateRoot h lb lb_next txs =>
@@ -112,23 +136,20 @@ Section Core.
     | OBlockResults h lb last_trusted next_rh rs =>
         match lb with
         | None => (st, AVerdict BOther)
-        | Some l =>
-            (* 599-621 *)
-            if (last_trusted <=? lb_height l)%Z then
-              (st, AVerdict (core_verify_block_results H last_trusted rs next_rh l))
-            else
-              (* 864-876 resultsHash *)
-              match lru_get (lb_height l) (rh_cache st) with
-              | (Some rh, c') => (mkCState (sr_cache st) c' (latest_block st) (watching st),
-                                  AVerdict (verify_block_results H rs rh l))
-              | (None, _) =>
-                  match next_rh with
-                  | None => (st, AVerdict BOther)
-                  | Some rh => (mkCState (sr_cache st) (lru_put cache_capacity (lb_height l) rh (rh_cache st)) (latest_block st) (watching st),
-                                AVerdict (verify_block_results H rs rh l))
-                  end
-              end
+        | Some l => let '(st', v) := results_step st l last_trusted next_rh rs in (st', AVerdict v)
         end
+    | OTxResults h lb last_trusted next_rh txs rs conv_ok =>
+        match lb with
+        | None => (st, AVerdict BOther)
+        | Some l =>
+            match verify_transactions H txs l with
+            | BOk =>
+                let '(st', v) := results_step st l last_trusted next_rh rs in
+                (st', AVerdict (match v with BOk => if conv_ok then BOk else BOther | e => e end))
+            | e => (st, AVerdict e)
+            end
+        end
+    | OApi lb c => (st, AVerdict (core_api H lb c))
     | ONewBlock lb b =>
         match lb with
         | None => (st, AVerdict BOther)
@@ -167,6 +188,8 @@ Definition canswer_eqb (a b : canswer) : bool :=
   | AHeight None, AHeight None => true
   | AHeight (Some x), AHeight (Some y) => (x =? y)%Z
   | ANone, ANone => true
+  (* a call that fails before any data is looked at has the same shape for every method *)
+  | AVerdict BOther, ARoot (SrErr BOther) | ARoot (SrErr BOther), AVerdict BOther => true
   | _, _ => false
   end.
 
@@ -180,7 +203,16 @@ Inductive hop :=
 | HNewBlock (lb : option light_block) (b : block)
 | HWatch
 | HLatestHeight (last_trusted : option Z) (provider_latest : Z) (verify : list (Z * light_block))
-| HLatestBlock.    (* observation: height of the latest block, not an operation of the Core *)
+| HLatestBlock     (* observation: height of the latest block, not an operation of the Core *)
+| HTxResults (h : Z) (lb : option light_block) (last_trusted : Z) (next_rh : option (option bytes))
+             (txs : list bytes) (rs : results) (conv_ok : bool)
+| HApi (lb : option light_block) (c : api_call)
+(* a query for HeightLatest: the provider answers its consecutive GetLatestHeight
+   requests with [answers]; "latest" is resolved ONCE (resolve_latest on the first
+   answer) and the whole call then is the call at that height: [alts] gives, for
+   every height the provider may name, what the call at that height is (with the
+   provider's data for that height). *)
+| HAtLatest (last_trusted : option Z) (answers : list Z) (alts : list (Z * hop)).
 
 Fixpoint dec_tbl (t : list (bytes * meta_tx)) (x : bytes) : meta_tx :=
   match t with
@@ -194,6 +226,23 @@ Fixpoint lb_tbl (t : list (Z * light_block)) (h : Z) : option light_block :=
   end.
 
 Definition hcase := (list (bytes * bytes) * list (bytes * meta_tx) * list hop)%type.
+Fixpoint alt_find (h : Z) (alts : list (Z * hop)) : option hop :=
+  match alts with
+  | [] => None
+  | (k, o) :: r => if (k =? h)%Z then Some o else alt_find h r
+  end.
+(* None: not an operation of the Core *)
+Definition hop_cop (o : hop) : option cop :=
+  match o with
+  | HStateRoot h lb n txs => Some (OStateRoot h lb n txs)
+  | HBlockResults h lb lt nrh rs => Some (OBlockResults h lb lt nrh rs)
+  | HNewBlock lb b => Some (ONewBlock lb b)
+  | HWatch => Some OWatch
+  | HLatestHeight lt pl t => Some (OLatestHeight lt pl (lb_tbl t))
+  | HTxResults h lb lt nrh txs rs ok => Some (OTxResults h lb lt nrh txs rs ok)
+  | HApi lb c => Some (OApi lb c)
+  | HLatestBlock | HAtLatest _ _ _ => None
+  end.
 Fixpoint hrun (H : bytes -> bytes) (dec : bytes -> meta_tx) (st : cstate) (ops : list hop) : list canswer :=
   match ops with
   | [] => []
@@ -201,17 +250,21 @@ Fixpoint hrun (H : bytes -> bytes) (dec : bytes -> meta_tx) (st : cstate) (ops :
       match o with
       | HLatestBlock =>
           AHeight (match latest_block st with Some b => Some (b_height b) | None => None end) :: hrun H dec st r
+      | HAtLatest lt answers alts =>
+          (* core.go:726-753: one resolution; an unresolvable or unknown height fails the call *)
+          match resolve_latest (watching st) lt (hd 0%Z answers) with
+          | None => AVerdict BOther :: hrun H dec st r
+          | Some h =>
+              match match alt_find h alts with Some o' => hop_cop o' | None => None end with
+              | Some c => let '(st1, a) := cstep H dec st c in a :: hrun H dec st1 r
+              | None => AVerdict BOther :: hrun H dec st r
+              end
+          end
       | _ =>
-          let c := match o with
-                   | HStateRoot h lb n txs => OStateRoot h lb n txs
-                   | HBlockResults h lb lt nrh rs => OBlockResults h lb lt nrh rs
-                   | HNewBlock lb b => ONewBlock lb b
-                   | HWatch => OWatch
-                   | HLatestHeight lt pl t => OLatestHeight lt pl (lb_tbl t)
-                   | HLatestBlock => OWatch
-                   end in
-          let '(st1, a) := cstep H dec st c in
-          a :: hrun H dec st1 r
+          match hop_cop o with
+          | Some c => let '(st1, a) := cstep H dec st c in a :: hrun H dec st1 r
+          | None => hrun H dec st r
+          end
       end
   end.
 Definition run_hcase (c : hcase) : list canswer :=
